@@ -368,6 +368,7 @@ def x86(s, name, I, A, T):
     m = re.fullmatch(r'(sse|avx|avx512)\.(rcp|rsqrt)(14)?\.(ps|ss|pd)(\.256|\.512|\.128)?', n)
     if m:
         w = fw(T[0]); k = m.group(2) + (m.group(3) or '')
+        if m.group(4) == 'ss': return [D.libm('x86_' + k, [s.as_float(A[0][0], w)])] + list(A[0][1:])     # scalar form: upper lanes pass through
         return [D.libm('x86_' + k, [s.as_float(x, w)]) for x in A[0]]
     m = re.fullmatch(r'(sse2|avx2|avx512)\.pmadd\.wd.*', n)
     m = re.fullmatch(r'(sse2|avx2)\.(psll|psrl|psra)(i)?\.(w|d|q)', n)
